@@ -417,6 +417,25 @@ func c10Literals(c *Ctx, idx int) {
 		}
 	}
 	T := b.String()
+	if idx%4 == 2 {
+		// a left operand that already fills the 34-digit significand, followed by a run of one
+		// additive (or multiplicative) operator over small literals: regrouping the literals
+		// rounds once instead of twice
+		x := gen.Pick(r, []string{"9.000000000000000000000000000000146", "1.234567890123456789012345678901235", "9999999999999999999999999999999.999", "0.3333333333333333333333333333333333", "8.999999999999999999999999999999995", "6.666666666666666666666666666666667", "123456789012345678901234567890.1235", "0.04545454545454545454545454545454545"})
+		doc.Set("a", gen.Num(x))
+		lead := gen.Pick(r, []string{"a", "`" + x + "`", "a / b", "b / c", "n / `22`", "a * `1`"})
+		op := gen.Pick(r, []string{"+", "-", "+", "−", "*", "×"})
+		var sb strings.Builder
+		sb.WriteString(lead)
+		for k := 0; k < 2+r.Intn(3); k++ {
+			o := op
+			if r.Chance(15) {
+				o = gen.Pick(r, []string{"+", "-"})
+			}
+			sb.WriteString(" " + o + " `" + gen.Pick(r, []string{"2", "4", "11", "95", "117", "999", "1000", "5000", "3", "7", "121", "1", "10"}) + "`")
+		}
+		T = sb.String()
+	}
 	pr := ref.Parse(T)
 	if pr.Status != ref.ParseOK {
 		return
@@ -432,7 +451,7 @@ func c10Literals(c *Ctx, idx int) {
 	}
 	lits := map[string]string{}
 	T3 := T
-	for i, t := range c10LitPool {
+	for i, t := range append(append([]string{}, c10LitPool...), "4", "11", "95", "117", "999", "1000", "5000", "121") {
 		name := fmt.Sprintf("k%d", i)
 		if strings.Contains(T3, "`"+t+"`") {
 			T3 = strings.ReplaceAll(T3, "`"+t+"`", name)
